@@ -86,3 +86,6 @@ package filtering
 //@ func (d *DNSFilter) update(flt *FilterYAML) (ok bool, err error)
 //@   trusted
 //@   modifies *flt, parseOK, fpos
+//@ func (d *DNSFilter) listsToUpdate(filters *[]FilterYAML, force bool) (toUpd []FilterYAML)
+//@   trusted
+//@   modifies nothing
